@@ -193,6 +193,31 @@ def conversation(ctx, form, compress, r):
         expect(len(rs2) == 1 and rs2[0][0] == (R.MSG_REPLY, seq, V(3)), "len through reference", rs2 and rs2[0][0])
         seq, rs2 = p.request(R.H["REPR"], lst)
         expect(len(rs2) == 1 and rs2[0][0] == (R.MSG_REPLY, seq, V("[1, 2, 3]")), "repr", rs2 and rs2[0][0])
+        seq, rs2 = p.request(R.H["STR"], lst)
+        expect(len(rs2) == 1 and rs2[0][0] == (R.MSG_REPLY, seq, V("[1, 2, 3]")), "str", rs2 and rs2[0][0])
+        seq, rs2 = p.request(R.H["CMP"], lst, lst, V("__eq__"))
+        expect(len(rs2) == 1 and rs2[0][0] == (R.MSG_REPLY, seq, V(True)), "cmp", rs2 and rs2[0][0])
+        seq, rs2 = p.request(R.H["HASH"], rootref)
+        expect(len(rs2) == 1 and rs2[0][0][0] == R.MSG_REPLY and isinstance(rs2[0][0][2][1], int), "hash", rs2 and rs2[0][0])
+        seq, rs2 = p.request(R.H["HASH"], lst)
+        expect(len(rs2) == 1 and rs2[0][0][0] == R.MSG_EXCEPTION and rs2[0][0][2][0] == ("builtins", "TypeError"), "hash of unhashable", rs2 and rs2[0][0][:2])
+        seq, rs2 = p.request(R.H["DIR"], lst)
+        expect(len(rs2) == 1 and rs2[0][0][0] == R.MSG_REPLY and "append" in rs2[0][0][2][1], "dir", rs2 and rs2[0][0][:2])
+        seq, rs2 = p.request(R.H["INSPECT"], V(rs[0][0][2][1]))
+        expect(len(rs2) == 1 and rs2[0][0][0] == R.MSG_REPLY and any(m[0] == "append" for m in rs2[0][0][2][1]), "inspect", rs2 and rs2[0][0][:2])
+        seq, rs2 = p.request(R.H["CALLATTR"], lst, V("__iter__"), (R.LABEL_TUPLE, ()), V(()))
+        if rs2 and rs2[0][0][0] == R.MSG_REPLY and rs2[0][0][2][0] == R.LABEL_REMOTE_REF:
+            it = (R.LABEL_LOCAL_REF, rs2[0][0][2][1])
+            seq, rs3 = p.request(R.H["BUFFITER"], it, V(2))
+            expect(len(rs3) == 1 and rs3[0][0] == (R.MSG_REPLY, seq, V((1, 2))), "buffiter", rs3 and rs3[0][0])
+        else:
+            expect(False, "iter reference", rs2 and rs2[0][0])
+        seq, rs2 = p.request(R.H["SETATTR"], lst, V("x"), V(1))
+        expect(len(rs2) == 1 and rs2[0][0][0] == R.MSG_EXCEPTION and rs2[0][0][2][0] == ("builtins", "AttributeError"), "setattr denied by default", rs2 and rs2[0][0][:2])
+        seq, rs2 = p.request(R.H["DELATTR"], lst, V("x"))
+        expect(len(rs2) == 1 and rs2[0][0][0] == R.MSG_EXCEPTION and rs2[0][0][2][0] == ("builtins", "AttributeError"), "delattr denied by default", rs2 and rs2[0][0][:2])
+        seq, rs2 = p.request(R.H["PICKLE"], lst, V(2))
+        expect(len(rs2) == 1 and rs2[0][0][0] == R.MSG_EXCEPTION and rs2[0][0][2][0] == ("builtins", "ValueError"), "pickle disabled by default", rs2 and rs2[0][0][:2])
         seq, rs2 = p.request(R.H["DEL"], lst, V(1))
         expect(len(rs2) == 1 and rs2[0][0] == (R.MSG_REPLY, seq, V(None)), "del", rs2 and rs2[0][0])
     # the implementation as the requester: it asks for our root; we answer in the published format
@@ -220,7 +245,27 @@ def conversation(ctx, form, compress, r):
     return bad
 
 
+PUBLISHED_NUMBERS = dict(MSG_REQUEST=1, MSG_REPLY=2, MSG_EXCEPTION=3, LABEL_VALUE=1, LABEL_TUPLE=2, LABEL_LOCAL_REF=3, LABEL_REMOTE_REF=4,
+                         EXC_STOP_ITERATION=1, **{"HANDLE_" + k: v for k, v in R.H.items()})
+
+
+def numbers_phase(ctx):
+    from rpyc.core import consts
+    for k, v in PUBLISHED_NUMBERS.items():
+        got = getattr(consts, k, None)
+        ctx.case(("const", k), nontrivial=True)
+        if got != v:
+            ctx.violation("protocol-number-differs:" + k, {"const": k}, observed=got, expected=v, what="a protocol number differs from its published value")
+    handlers = Connection._request_handlers()
+    for k, v in R.H.items():
+        fn = handlers.get(v)
+        if fn is None or fn.__name__ != "_handle_" + k.lower():
+            ctx.violation("handler-table-differs:" + k, {"handler": k}, observed=getattr(fn, "__name__", None), expected="_handle_" + k.lower(),
+                          what="published handler number is not routed to its handler")
+
+
 def run(ctx):
+    numbers_phase(ctx)
     ctx.coverage_extra["rule"] = ("values from C04's generator (serializable only) compared with the reference encoder byte-for-byte and re-encoded in l1/l4 forms; "
                                   "frames for payload sizes around threshold/chunk with both compression settings on both sides; scripted request/response conversations "
                                   "between the reference peer (each of 3 forms x 2 compression choices) and a real Connection, both directions")
